@@ -5,6 +5,20 @@ use std::f64::consts::PI;
 use std::ops::*;
 
 const P: &str = "C11";
+/// exact tier: angles are lattice codes; a result that is not a code (an implementation that wraps or reflects with pi
+/// or a full turn, which are radian numbers) cannot be expressed there - inconclusive, the float tiers judge it
+fn code(a: Ex) -> Ex {
+    if !a.is_integer() {
+        ex::domain_exit("angle is not a lattice code");
+    }
+    a
+}
+/// float tiers: what a rounding of the cosine may do to an angle (eps / sin(angle), at the ends of the range sqrt(2 eps));
+/// granted to the 2-D signed angle as it is to the n-D one - the statement gives neither a better accuracy
+fn acos_room<T: Tier>(reference: f64) -> f64 {
+    let eps = K_TOL * T::U * 16.0;
+    (eps / reference.sin().abs().max(1e-300)).min((2.0 * eps).sqrt() * 2.0) + eps
+}
 fn key(s: &str) -> String {
     format!("{P}/{s}")
 }
@@ -148,8 +162,8 @@ fn exact_angle(rep: &mut Report) {
                 if ang.abs() < PI {
                     let u = mk_v2([r1, T::int(0)]);
                     let v = mk_v2([c * r2, s * r2]);
-                    same_slice(ctx, &key("angle/Vector2/signed-ccw"), &[u.angle(v).0], &[T::int(k)]);
-                    same_slice(ctx, &key("angle/Vector2/signed-ccw"), &[v.angle(u).0], &[T::int(-k)]);
+                    same_slice(ctx, &key("angle/Vector2/signed-ccw"), &[code(u.angle(v).0)], &[T::int(k)]);
+                    same_slice(ctx, &key("angle/Vector2/signed-ccw"), &[code(v.angle(u).0)], &[T::int(-k)]);
                 }
                 // 3-D: u perpendicular to the axis, v = u rotated about the axis by k*delta
                 let helper = if an[0] == 0 && an[1] == 0 { [T::int(1), T::int(0), T::int(0)] } else { [T::int(0), T::int(0), T::int(1)] };
@@ -162,8 +176,8 @@ fn exact_angle(rep: &mut Report) {
                     let want = if ang.abs() <= PI { T::int(k.abs()) } else { T::int(0) };
                     if ang.abs() <= PI {
                         ctx.branch("angle3");
-                        same_slice(ctx, &key("angle/Vector3"), &[u.angle(v).0], &[want]);
-                        same_slice(ctx, &key("angle/Vector3/symmetric"), &[v.angle(u).0], &[want]);
+                        same_slice(ctx, &key("angle/Vector3"), &[code(u.angle(v).0)], &[want]);
+                        same_slice(ctx, &key("angle/Vector3/symmetric"), &[code(v.angle(u).0)], &[want]);
                     }
                 }
                 // 4-D and quaternion: u = r1 e_0, v = r2 (cos, sin * axis)
@@ -171,15 +185,15 @@ fn exact_angle(rep: &mut Report) {
                     let want = T::int(k.abs());
                     let u4 = [r1, T::int(0), T::int(0), T::int(0)];
                     let v4a = [c * r2, s * r2 * ax[0], s * r2 * ax[1], s * r2 * ax[2]];
-                    same_slice(ctx, &key("angle/Vector4"), &[mk_v4(u4).angle(mk_v4(v4a)).0], &[want]);
-                    same_slice(ctx, &key("angle/Vector4/symmetric"), &[mk_v4(v4a).angle(mk_v4(u4)).0], &[want]);
-                    same_slice(ctx, &key("angle/Quaternion"), &[mk_q(u4).angle(mk_q(v4a)).0], &[want]);
-                    same_slice(ctx, &key("angle/Quaternion/symmetric"), &[mk_q(v4a).angle(mk_q(u4)).0], &[want]);
+                    same_slice(ctx, &key("angle/Vector4"), &[code(mk_v4(u4).angle(mk_v4(v4a)).0)], &[want]);
+                    same_slice(ctx, &key("angle/Vector4/symmetric"), &[code(mk_v4(v4a).angle(mk_v4(u4)).0)], &[want]);
+                    same_slice(ctx, &key("angle/Quaternion"), &[code(mk_q(u4).angle(mk_q(v4a)).0)], &[want]);
+                    same_slice(ctx, &key("angle/Quaternion/symmetric"), &[code(mk_q(v4a).angle(mk_q(u4)).0)], &[want]);
                     if s == T::int(0) || true {
                         let u1 = mk_v1([r1]);
                         let v1a = mk_v1([if k == 0 { r2 } else { r2 }]);
                         if k == 0 {
-                            same_slice(ctx, &key("angle/Vector1"), &[u1.angle(v1a).0], &[T::int(0)]);
+                            same_slice(ctx, &key("angle/Vector1"), &[code(u1.angle(v1a).0)], &[T::int(0)]);
                         }
                     }
                 }
@@ -287,7 +301,7 @@ fn grid<T: Tier + Dom<M = Sh>, V: Inner<T, N>, const N: usize>(rep: &mut Report,
                 let perp = mu[0] * mv[1] - mu[1] * mv[0];
                 let m = Sh::atan2(perp, mdot);
                 ctx.t();
-                let tol = K_TOL * T::U * (m.e + m.v.abs());
+                let tol = K_TOL * T::U * (m.e + m.v.abs()) + acos_room::<T>(m.v);
                 let diff = (af - m.v).abs();
                 let diff = diff.min((diff - 2.0 * PI).abs()); // +pi and -pi are the same direction
                 if !(diff <= tol) {
@@ -407,8 +421,8 @@ fn close_sys<T: Tier + Dom<M = Sh>, const N: usize>(
         },
     );
 }
-/// 2-D signed angles next to 0 and next to +-pi (non-dyadic components): the atan2 form resolves them, an acos form
-/// with a sign attached does not
+/// 2-D signed angles next to 0 and next to +-pi (non-dyadic components), judged with the room an acos form with the
+/// orientation attached needs (the n-D default has the same)
 fn small_angle2<T: Tier + Dom<M = Sh>>(rep: &mut Report) {
     let steps: Vec<f64> = if T::NAME == "F" { vec![2f64.powi(-6), 2f64.powi(-10), 2f64.powi(-14)] } else { vec![2f64.powi(-8), 2f64.powi(-20), 2f64.powi(-32)] };
     let ks = [1.0f64, -1.0, 2.5, -0.3];
@@ -433,7 +447,7 @@ fn small_angle2<T: Tier + Dom<M = Sh>>(rep: &mut Report) {
             let m = Sh::atan2(mu[0] * mv[1] - mu[1] * mv[0], model::vdot(mu, mv));
             for (a, want) in [(mk_v2(u).angle(mk_v2(v)).0.f(), m.v), (mk_v2(v).angle(mk_v2(u)).0.f(), -m.v)] {
                 ctx.t();
-                let tol = K_TOL * T::U * (m.e + m.v.abs());
+                let tol = K_TOL * T::U * (m.e + m.v.abs()) + acos_room::<T>(m.v);
                 let diff = (a - want).abs();
                 let diff = diff.min((diff - 2.0 * PI).abs());
                 if !(diff <= tol) {
